@@ -22,6 +22,7 @@ func runC02(c *core.Ctx) {
 	k := newG(c, "./lang/check")
 	runC02Axioms(k)
 	runC02Facts(k)
+	runC02Simplify(k)
 	runC02Tables(k)
 	runC01More(k) // bcheckAssert's acceptance gate and optimizeIOMethodAdvance are C02 mechanisms too
 }
